@@ -210,7 +210,37 @@ def state(chart, twin):
     # instrument map and of each difficulty map, str() and repr() of the chart)
     order = [(i.name, [d.name for d in m]) for i, m in chart.instrument_tracks.items()]
     rendered = hashlib.sha256((str(chart) + "\x00" + repr(chart)).encode("utf-8", "surrogatepass")).hexdigest()
-    return observe.digest(observe.observe(chart)), bool(chart == twin), bool(twin == chart), order, rendered
+    return (observe.digest(observe.observe(chart)), bool(chart == twin), bool(twin == chart), order, rendered, answers(chart))
+
+
+def answers(chart):
+    """What the chart ANSWERS is observable data as well: a fixed set of tick-to-time and rate queries, asked the same way
+    before and after every operation (value, or the class of the exception)."""
+    be = chart.sync_track.bpm_events
+    ticks = sorted({0, 1} | {e.tick + d for e in list(be)[:6] + list(be)[-2:] for d in (-1, 0, 1) if e.tick + d >= 0})
+    out = []
+    was, _C19State.active = _C19State.active, False  # the snapshot contract is for the operations, not for this observer
+    try:
+        return _answers(chart, be, ticks, out)
+    finally:
+        _C19State.active = was
+
+
+def _answers(chart, be, ticks, out):
+    for t in ticks:
+        for fn in (be.timestamp_at_tick, be.timestamp_at_tick_no_optimize_return):
+            try:
+                out.append(str(fn(t)))
+            except Exception as e:  # noqa
+                out.append(type(e).__name__)
+    for inst, m in chart.instrument_tracks.items():
+        for diff in m:
+            for args in ((), (0, ticks[-1] + 5), (timedelta(0), timedelta(seconds=3))):
+                try:
+                    out.append(repr(chart.notes_per_second(inst, diff, *args)))
+                except Exception as e:  # noqa
+                    out.append(type(e).__name__)
+    return out
 
 
 def describe_change(before, after) -> str:
@@ -227,6 +257,9 @@ def describe_change(before, after) -> str:
         return f"iteration order of chart.instrument_tracks changed from {before[3]} to {after[3]}"
     if before[1:3] == after[1:3] and before[4] != after[4]:
         return "str(chart) / repr(chart) changed"
+    if before[1:3] == after[1:3] and before[5] != after[5]:
+        k = next(i for i, (a, b) in enumerate(zip(before[5], after[5])) if a != b)
+        return f"the chart's answers to fixed tick-to-time / rate queries changed (answer #{k}: {before[5][k]} -> {after[5][k]})"
     return f"equality with the twin changed from (chart==twin, twin==chart) = {before[1:3]} to {after[1:3]}"
 
 
